@@ -48,6 +48,8 @@ CONSTANTS
                           \* (from math import *), so the generated module has to resolve them too
     ResidChoices,         \* values RunStep may take for the residual flag ({TRUE} in the bounded instance)
     MaxGenerations,       \* how many modules one generator object may write (main() called that often)
+    FirstBlocks,          \* blocks a generator object may have parsed and generated BEFORE the block under test
+    SecondBlocks,         \* blocks that are (also) tried as the second block of such a generator
     AsFound_KUndefined,   \* TRUE: the pinned code - nothing in the generated module binds k
     AsFound_ChainedLagNoSeries,
                           \* TRUE: the pinned code - a lagged variable that another lagged variable refers to
@@ -65,7 +67,8 @@ Count(s, x) == Cardinality({ i \in DOMAIN s : s[i] = x })
 (* series is stored as self.<variable> (attributes and methods of SFCModel / BaseSolver) and   *)
 (* the unpack section indexes the local orig_vector after re-binding the variables            *)
 ModuleOwnNames == {"STEP", "MaxTime", "MaxIterations", "Err_Tolerance", "PrintIterations", "VariableList",
-                   "main", "RunOneStep", "Iterator", "CalcError", "WriteCSV", "CreateCsvString", "orig_vector"}
+                   "main", "RunOneStep", "Iterator", "CalcError", "WriteCSV", "CreateCsvString", "orig_vector",
+                   "ITERATOR"}            \* ... and a placeholder of the template that is replaced late
 (* loop state of the fixed-point iteration in RunOneStep: must not be a block variable's value *)
 LoopNames == {"err", "cnt"}
 (* builtins the parser lets equations use (utils.get_invalid_tokens: good_tokens) *)
@@ -97,7 +100,8 @@ ParseOp(b) ==
       lagged  |-> b.lagged,
       exos    |-> b.exos,
       ics     |-> b.ics,
-      maxTime |-> b.maxTime ]
+      maxTime |-> b.maxTime,
+      tol     |-> b.tolText ]          \* Err_Tolerance: the block's line, or the parser's default
 
 (* GenerateEquations.  Required behaviour (AsFound_KUndefined = FALSE): when an equation reads *)
 (* the step index k and no list defines it, k is supplied as an exogenous series 0..MaxTime    *)
@@ -157,6 +161,10 @@ GenFileOp(p, g) ==
       unpack   |-> [ i \in DOMAIN p.endo |-> [name |-> p.endo[i].name, pos |-> i - 1] ]
                    \o [ i \in DOMAIN ch |-> [name |-> ch[i], pos |-> Len(p.endo) + LagPos(p, ch[i]) - 1] ],
       loopAfterPack |-> TRUE,               \* err = 1. / cnt = 0 are assigned after the variables are packed
+      tol      |-> p.tol,                  \* self.Err_Tolerance / self.MaxTime written into the module
+      maxTime  |-> p.maxTime,
+      vectorIsTuple |-> TRUE,              \* orig_vector, the unpacking of in_vec and the return value of the
+                                           \* Iterator are tuples also when the block has ONE variable
       varList  |-> g.nonLagged,
       header   |-> HeaderOf(g.nonLagged) ]
 
@@ -193,7 +201,9 @@ RunStepOp(f, m, r) ==
                     [] pr.idx = "STEP-1" -> step - 1
                     [] OTHER             -> step
         appended == { f.unpack[i].name : i \in DOMAIN f.unpack }
-    IN IF ~NoOwnNameCaptured(f)
+    IN IF ~f.vectorIsTuple
+       THEN [m EXCEPT !.STEP = step, !.status = "TypeError"]        \* CalcError zips two floats
+       ELSE IF ~NoOwnNameCaptured(f)
        THEN [m EXCEPT !.STEP = step, !.status = "NameCaptured"]
        ELSE IF \E i \in DOMAIN f.pack : ~PackOk(f.pack[i])
        THEN [m EXCEPT !.STEP = step, !.status = "PackError"]
@@ -213,22 +223,23 @@ RunStepOp(f, m, r) ==
 ----------------------------------------------------------------------------
 VARIABLES phase,    \* "init" | "rejected" | "parsed" | "equations" | "file" | "imported" | "running" | "done"
           ngen,     \* number of modules this generator object has written
+          first,    \* the block this generator object parsed and generated before the current one (or NoBlock)
           blk,      \* the block given to the generator (history)
           parser,   \* the parser lists held by the generator
           gen,      \* AllVariables / NonLagged / EquationList (and the Exogenous list after GenerateEquations)
           file,     \* name sets of the sections of the written module
           mod       \* step state of the imported module
 
-vars == << phase, ngen, blk, parser, gen, file, mod >>
+vars == << phase, ngen, first, blk, parser, gen, file, mod >>
 
 NoBlock  == [endo |-> << >>, lagged |-> << >>, exos |-> << >>, ics |-> << >>, maxTime |-> 0, foundT |-> FALSE,
-             reduce |-> FALSE]
-NoParser == [endo |-> << >>, lagged |-> << >>, exos |-> << >>, ics |-> << >>, maxTime |-> 0]
+             reduce |-> FALSE, tolText |-> ""]
+NoParser == [endo |-> << >>, lagged |-> << >>, exos |-> << >>, ics |-> << >>, maxTime |-> 0, tol |-> ""]
 NoGen    == [exos |-> << >>, all |-> << >>, nonLagged |-> << >>, eqReads |-> << >>]
-NoFile   == [globals |-> {}, declReads |-> << >>, decl |-> << >>, pack |-> << >>, orig |-> << >>, iterUnpack |-> << >>, iterBinds |-> << >>,
+NoFile   == [tol |-> "", maxTime |-> 0, vectorIsTuple |-> TRUE, globals |-> {}, declReads |-> << >>, decl |-> << >>, pack |-> << >>, orig |-> << >>, iterUnpack |-> << >>, iterBinds |-> << >>,
              iterReads |-> << >>, unpack |-> << >>, loopAfterPack |-> TRUE, varList |-> << >>, header |-> << >>]
 
-Init == /\ phase = "init" /\ ngen = 0 /\ blk = NoBlock /\ parser = NoParser /\ gen = NoGen /\ file = NoFile
+Init == /\ phase = "init" /\ ngen = 0 /\ first = NoBlock /\ blk = NoBlock /\ parser = NoParser /\ gen = NoGen /\ file = NoFile
         /\ mod = NoModule
 
 ParseAccept(b) ==
@@ -236,7 +247,7 @@ ParseAccept(b) ==
     /\ phase' = "parsed"
     /\ blk' = b
     /\ parser' = ParseOp(b)
-    /\ UNCHANGED << ngen, gen, file, mod >>
+    /\ UNCHANGED << first, ngen, gen, file, mod >>
 
 ParseBlock(b) == Accepts(b) /\ ParseAccept(b)
 
@@ -245,7 +256,7 @@ ParseReject(b) ==
     /\ phase = "init"
     /\ phase' = "rejected"
     /\ blk' = b
-    /\ UNCHANGED << ngen, parser, gen, file, mod >>
+    /\ UNCHANGED << first, ngen, parser, gen, file, mod >>
 
 RejectBlock(b) == ~Accepts(b) /\ ParseReject(b)
 
@@ -254,26 +265,26 @@ GenerateEquations ==
     /\ phase' = "equations"
     /\ gen' = GenEqOp(parser)
     /\ parser' = [parser EXCEPT !.exos = gen'.exos]      \* self.Exogenous is the generator's own list
-    /\ UNCHANGED << ngen, blk, file, mod >>
+    /\ UNCHANGED << first, ngen, blk, file, mod >>
 
 GenerateFile ==
     /\ phase = "equations"
     /\ phase' = "file"
     /\ file' = GenFileOp(parser, gen)
     /\ ngen' = ngen + 1
-    /\ UNCHANGED << blk, parser, gen, mod >>
+    /\ UNCHANGED << first, blk, parser, gen, mod >>
 
 Import ==
     /\ phase = "file"
     /\ mod' = ImportOp(file)
     /\ phase' = IF parser.maxTime = 0 \/ mod'.status # "ok" THEN "done" ELSE "imported"
-    /\ UNCHANGED << ngen, blk, parser, gen, file >>
+    /\ UNCHANGED << first, ngen, blk, parser, gen, file >>
 
 RunStep(r) ==
     /\ phase \in {"imported", "running"}
     /\ mod' = RunStepOp(file, mod, r)
     /\ phase' = IF mod'.status # "ok" \/ mod'.STEP >= parser.maxTime THEN "done" ELSE "running"
-    /\ UNCHANGED << ngen, blk, parser, gen, file >>
+    /\ UNCHANGED << first, ngen, blk, parser, gen, file >>
 
 (* main() once more on the same object: the parser lists (with what GenerateEquations did to *)
 (* them) stay, everything derived is recomputed, a fresh module is written and imported      *)
@@ -282,9 +293,23 @@ Regenerate ==
     /\ ngen < MaxGenerations
     /\ phase' = "parsed"
     /\ gen' = NoGen /\ file' = NoFile /\ mod' = NoModule
-    /\ UNCHANGED << ngen, blk, parser >>
+    /\ UNCHANGED << first, ngen, blk, parser >>
 
-Next == \/ (phase = "init" /\ \E b \in Blocks : (ParseBlock(b) \/ RejectBlock(b)))
+(* ParseString(<another block>) on the SAME generator object after it generated a module for a first *)
+(* block: every per-block attribute (lists, initial conditions, horizon, tolerance, the step index    *)
+(* series) is the new block's; nothing of the first block survives                                   *)
+Reparse(b) ==
+    /\ phase = "file" /\ first = NoBlock
+    /\ Accepts(b)
+    /\ first' = blk
+    /\ blk' = b
+    /\ parser' = ParseOp(b)
+    /\ phase' = "parsed"
+    /\ ngen' = 0
+    /\ gen' = NoGen /\ file' = NoFile /\ mod' = NoModule
+
+Next == \/ (phase = "init" /\ \E b \in Blocks \cup FirstBlocks : (ParseBlock(b) \/ RejectBlock(b)))
+        \/ (phase = "file" /\ first = NoBlock /\ blk \in FirstBlocks /\ \E b \in SecondBlocks : Reparse(b))
         \/ GenerateEquations
         \/ GenerateFile
         \/ Import
@@ -307,6 +332,15 @@ C20_Closed == HasFile => (ClosedFile(file) /\ DeclClosed(file))
 IteratorEvaluates(p, f) ==
     \A i \in DOMAIN p.endo : i \in DOMAIN f.iterReads /\ Range(f.iterReads[i]) = Range(p.endo[i].reads)
 C20_IteratorEvaluatesEquations == HasFile => IteratorEvaluates(parser, file)
+
+(* every per-block attribute of the written module comes from the CURRENT block, also when the *)
+(* generator object parsed another block before                                                 *)
+C20_AttributesFromCurrentBlock ==
+    HasFile => /\ file.tol = blk.tolText /\ file.maxTime = blk.maxTime
+               /\ parser.endo = ParseOp(blk).endo /\ parser.lagged = blk.lagged /\ parser.ics = blk.ics
+               /\ \A i \in DOMAIN parser.exos : parser.exos[i].name = "k" \/ parser.exos[i] \in Range(blk.exos)
+(* the iteration vector is a tuple whatever the number of variables *)
+C20_VectorIsTuple == HasFile => file.vectorIsTuple
 
 (* the generated module resolves every math / builtin name the in-process solver resolves *)
 C20_ResolvesSolverNames == HasFile => SolverNames \subseteq file.globals
